@@ -341,7 +341,11 @@ def bracket_specs(rng, n):
         if sp["tty"] and rng.random() < 0.5:
             specs.append(dict(sp, body=rng.choice(["echo", "icanon", "echo+icanon", "vmin", "echo+icanon+vmin"])))
     rng.shuffle(specs)
-    return specs[:n]
+    specs = specs[:n]
+    # always present: the terminal is ALREADY in cbreak mode (the bracket is inert) and the body reconfigures it
+    specs.append({"tty": True, "echo": False, "icanon": False, "vmin": 1, "vtime": 0, "raise": False, "body": "echo+icanon"})
+    specs.append({"tty": True, "echo": True, "icanon": True, "vmin": 1, "vtime": 0, "raise": False, "body": "echo+icanon+vmin"})
+    return specs
 
 
 def bracket_run(specs):
@@ -351,14 +355,37 @@ def bracket_run(specs):
     return json.loads(line[0][7:]) if line else None
 
 
+def body_mask(sp):
+    b = sp.get("body") or ""
+    return (1 if "echo" in b else 0) + (2 if "icanon" in b else 0) + (4 if "vmin" in b else 0)
+
+
 def bracket_model_line(sp):
-    return "T|%d,%d,%d,%d,%d,%d,%d" % (int(sp["tty"]), int(sp["tty"]), int(sp["echo"]), int(sp["icanon"]), sp["vmin"], sp["vtime"], int(sp["raise"]))
+    return "T|%d,%d,%d,%d,%d,%d,%d,%d" % (int(sp["tty"]), int(sp["tty"]), int(sp["echo"]), int(sp["icanon"]), sp["vmin"], sp["vtime"],
+                                          int(sp["raise"]), body_mask(sp) if sp["tty"] else 0)
+
+
+INERT_TAG = " {C08-command-reconfigures-already-cbreak-tty}"
+
+
+def match_known(entry, failure):
+    # ONLY: attributes not restored, the bracket inert (terminal already in cbreak mode) AND the body reconfigured it
+    return entry.get("id") == "C08-command-reconfigures-already-cbreak-tty" and failure["why"].endswith(INERT_TAG)
+
+
+def bracket_inert(sp):
+    """the terminal is already in cbreak mode: character_buffered leaves it alone (terminals.cbreak_already_set)"""
+    return sp["tty"] and not sp["echo"] and not sp["icanon"] and sp["vmin"] == 1 and sp["vtime"] == 0
 
 
 def bracket_oracle(sp, r):
     if not r["restored"]:
-        return "[tty-not-restored] character_buffered over a terminal with echo=%s icanon=%s vmin=%d vtime=%d (body %s): attributes after the block differ from before" % (
-            sp["echo"], sp["icanon"], sp["vmin"], sp["vtime"], "raises" if sp["raise"] else "returns")
+        why = "[tty-not-restored] character_buffered over a terminal with echo=%s icanon=%s vmin=%d vtime=%d (body %s%s): attributes after the block differ from before" % (
+            sp["echo"], sp["icanon"], sp["vmin"], sp["vtime"], "raises" if sp["raise"] else "returns",
+            ", reconfigures the terminal: " + sp["body"] if sp.get("body") else "")
+        if bracket_inert(sp) and body_mask(sp):
+            why += INERT_TAG
+        return why
     if r["raised"] != sp["raise"]:
         return "[bracket-outcome] the body %s but the block %s" % ("raised" if sp["raise"] else "returned", "raised" if r["raised"] else "returned")
     if sp["tty"] and not r["during"]:
